@@ -34,10 +34,11 @@ CLAIMED = {
          'the first frames); events, payload terms, written bytes and write/event interleaving are proved equal.'),
  'C03': ('model_checking', '3 (C03)',
          'One API call on a directly constructed connected WebSocket with symbolic payload bytes / code points (all planes) / close code+reason and a symbolic masking key; '
-         'the bytes passed to sendall are decoded by an independent RFC 6455 5.2 decoder: one frame, FIN, RSV clear, masked, minimal length form, control <= 125, unmask == caller '
+         'the bytes passed to sendall (concatenated, should the library hand one frame to the socket in several pieces) are decoded by an independent RFC 6455 5.2 decoder: one frame, FIN, RSV clear, masked, minimal length form, control <= 125, unmask == caller '
          'payload; rejected calls raise TypeError/ValueError and write nothing. XOR-table lemma discharged per row from the real _XOR_TABLE. '
          'Plus: the same calls with a payload whose LENGTH is a solver variable (abstract content block; 0 <= L < 2^63 through Frame.build, <= 2^17 through the API): header '
-         'announces exactly L in the shortest form and every residue class of the block is XORed with the right key byte, for every length at once.'),
+         'announces exactly L in the shortest form and every residue class of the block is XORed with the right key byte, for every length at once. Plus (deterministic scheduler, '
+         'schedule = solver variables): a 70 000-byte message against another thread\'s Pong / send - the wire must still decode as whole frames.'),
  'C07': ('model_checking', '3 (C07)',
          'Handshake variant x raw symbolic frame bytes x transport end x symbolic faults x application reactions at solver-chosen events; a monitor automaton over event names '
          '(independent of lomond) plus a bounded-step termination obligation (livelock => violation, not a hang).'),
@@ -47,7 +48,8 @@ CLAIMED = {
          'delivery continues, Closed/Closing + graceful Disconnected + socket closed.'),
  'C09': ('model_checking', '3 (C09)',
          'Symbolic fault (socket error / arbitrary exception) at every socket call occurrence, EOF/error after every byte offset (offset is a solver variable), all addresses refused, '
-         'pairs of faults in thorough: no exception escapes, terminal event right, graceful=False without a closing handshake, socket released, sends raise only WebSocketError.'),
+         'pairs of faults in thorough: no exception escapes, terminal event right, graceful=False without a closing handshake, socket released, sends raise only WebSocketError; plus '
+         '(deterministic scheduler) the transport failing under the real event loop while another thread is inside sendall holding the write lock.'),
  'C13': ('model_checking', '3 (C13)',
          'Four real consumer shapes (break / raise / generator.close() / with-block) abandoning at a solver-chosen event of grammar-generated scenarios (poll=0 so top-of-loop Polls occur), '
          'optionally after close(): socket.close() and selector.close() must have been called.'),
@@ -58,7 +60,8 @@ CLAIMED = {
          'decisive tokens as an over-long hole of arbitrary bytes >= 0x21 (all non-ASCII bytes, i.e. Unicode digits / case-folding look-alikes / Unicode white space in UTF-8): never Ready.'),
  'C17': ('model_checking', '3 (C17)',
          'Two connects on one object inside one path (symbolic bytes + solver-chosen abnormal ending, then valid handshake + symbolic bytes) compared against a fresh object fed the '
-         'same symbolic bytes: identical branching, events, payload terms, decoded frames; public state at Connecting is initial; new key.'),
+         'same symbolic bytes: identical branching, events, payload terms, decoded frames; public state at Connecting is initial; new key; wall-clock leftovers: threading.Timer runs on the virtual clock and '
+         'connection 2 sits through a quiet period longer than every timeout of connection 1.'),
  'C19': ('model_checking', '3 (C19)',
          'Proxy answer = HTTP/1.1 + 3 symbolic status bytes + solver-chosen tail/segmentation/fault over a grid of proxy URL shapes; ordered I/O-log oracle: CONNECT names exactly '
          'host:port, nothing else written before the complete answer, only status 200 starts the handshake (TLS wrap iff wss, Connected.proxy), otherwise exactly Connecting, ConnectFail.'),
@@ -66,7 +69,8 @@ CLAIMED = {
          'The real run()/_regular/_check_*/_on_ready/_on_pong/close run with time.time() a symbolic non-decreasing Real that advances only in the selector wait by a symbolic '
          '0<=dt<=poll; poll/ping_timeout/close_timeout symbolic reals, ping_rate on a grid; per iteration a solver-chosen server action, application close() at a solver-chosen event; '
          'obligations over virtual timestamps: Poll cadence p<=gap<2p, ping grid (timely, never twice per period, none for r=0 or while closing), Unresponsive iff >t at the first '
-         'housekeeping instant, forced disconnect in [c, c+p], never for c None/0.'),
+         'housekeeping instant, forced disconnect in [c, c+p], never for c None/0. Plus an INDUCTIVE STEP: one pass of the real _regular() from an arbitrary timer state constrained only by '
+         'the invariant every pass re-establishes (ping_rate on a grid and as a symbolic real), with the base case at Ready - so the bounded-K conclusions extend to sessions of any length.'),
  'C16': ('model_checking', '3 (C16)',
          'Real persist() over a real WebSocket: 7 attempt outcomes chosen by solver variables, random() a symbolic Real in [0,1), min_wait<=max_wait symbolic reals, exit_event.wait '
          'symbolic; obligations: one BackOff per attempt, delay == wait argument, bounds, delay == min_wait + u*min(max_wait-min_wait, 2^k) exactly (so too small a window is also sat), '
